@@ -909,6 +909,9 @@ func (env *Env) evalCall(n *Call) (TV, error) {
 		return TV{}, err
 	}
 	if e.ghostFns[n.Fn] && len(args) == 1 {
+		if e.ghostFnAny[n.Fn] {
+			return TV{fmt.Sprintf("(%s %s)", q("gf:"+n.Fn), args[0].T), types.NewInterfaceType(nil, nil)}, nil
+		}
 		if e.ghostFnStr[n.Fn] {
 			return TV{fmt.Sprintf("(%s %s)", q("gf:"+n.Fn), args[0].T), tyString}, nil
 		}
